@@ -68,6 +68,13 @@ pub fn run_c08(tier: &str, seed: u64, out: &mut dyn Write) {
             emit(out, bufsize, &[Ev::Dgram(1, d1.clone()), Ev::Dgram(2, d2[..cut].to_vec()), Ev::Dgram(3, d3.clone())]);
         }
     }
+    // a receive buffer and a datagram above 64 KiB (sizes that do not fit 16 bits), full of whole messages
+    for (bufsize, count) in [(70_000usize, 700usize), (66_000, 690), (131_200, 1370)] {
+        let mut d = vec![];
+        for i in 0..count { d.extend(ser_m(&crate::wire::M::Ms(portus::serialize::measure::Msg { sid: 1 + (i % 7) as u32, program_uid: 3, num_fields: 9, fields: (0..9).map(|k| (i * 16 + k) as u64).collect() })).unwrap().unwrap()); }
+        d.truncate(bufsize.min(d.len()));
+        emit(out, bufsize, &[Ev::Dgram(1, d), Ev::Dgram(2, ser_m(&crate::wire::M::Rdy(portus::serialize::ready::Msg { id: 9 })).unwrap().unwrap())]);
+    }
     let n = if thorough { 150_000 } else { 5_000 };
     for _ in 0..n {
         let bufsize = *r.pick(&[1024usize, 1024, 256, 96, 64]);
